@@ -13,7 +13,7 @@ def generate_source_code(docstring, parsed):
     # Convert the parse tree into a list of parsing expressions.
     nodes = parser.transform(parsed.body, _create_parsing_expression)
 
-    out = CodeBuilder()
+    out = _Builder()
     out.add_docstring(docstring)
 
     flags = _Flags(uses_context=parsed.name is not None)
@@ -250,6 +250,16 @@ def generate_source_code(docstring, parsed):
             ))
 
     return out
+
+
+class _Builder(CodeBuilder):
+    def var(self, base_name, *args, **kwargs):
+        # Names chosen by the user (fields, parameters, let variables) live in
+        # the same Python namespace as the temporaries of the generated code.
+        # User names never start with an underscore, so temporaries always do.
+        if not base_name.startswith('_'):
+            base_name = '_' + base_name
+        return CodeBuilder.var(self, base_name, *args, **kwargs)
 
 
 class _Flags:
